@@ -135,6 +135,20 @@ def _branch_means_pf_greater(key, val):
     return pf_minus_t_positive if val else (not pf_minus_t_positive)
 
 
+def _entry_first(r):
+    """`X.kcals[m]` and `X[m].kcals` are the same number: atoms are rewritten to the second spelling"""
+    from .rat import K
+    mapping = {}
+    for a in r.atoms():
+        if isinstance(a, K) and len(a.path) >= 2 and "[]" in a.path:
+            p = list(a.path)
+            i = p.index("[]")
+            if i >= 1 and p[i - 1] in ("kcals", "fat", "protein"):
+                p[i - 1], p[i] = p[i], p[i - 1]
+                mapping[a] = Rat.atom(K(tuple(p), a.idx))
+    return r.subst(mapping) if mapping else r
+
+
 def _overlap(a, b):
     """can one number satisfy both `x a.op a.bound` and `x b.op b.bound`?"""
     from .rat import feasible
@@ -172,11 +186,31 @@ def fill(index, rep, fn):
                 return Rat.atom(("MIN", len(interp._mins) - 1))
             if d in ("np.zeros_like", "np.zeros"):
                 return Opaque("zeros")
+            if d in ("np.array", "np.asarray") and len(a) == 1 and isinstance(a[0], (Path, Obj)):
+                return a[0]
+            if d == "sum" and len(a) == 1 and isinstance(a[0], (PList, tuple)) and all(
+                    isinstance(x, Path) or (isinstance(x, Obj) and x.name == "series-sum") for x in (a[0].items if isinstance(a[0], PList) else a[0])):
+                # a sum of whole monthly series (kept symbolic): entry m of it is the sum of the entries m
+                parts = []
+                for x in (a[0].items if isinstance(a[0], PList) else a[0]):
+                    parts += x.attrs["parts"] if isinstance(x, Obj) else [x]
+                return Obj(None, {"parts": parts}, "series-sum")
             if d and (d.startswith("Validator.") or d.startswith("self.assert_") or d == "print"):
                 return None
             return NotImplemented
 
         it.call_hook = hook
+        orig_gi = it.getitem
+
+        def gi(obj, key, node):
+            if isinstance(obj, Obj) and obj.name == "series-sum":
+                tot = Rat.const(0)
+                for p_ in obj.attrs["parts"]:
+                    tot = tot + it.to_rat(orig_gi(p_, key, node))
+                return tot
+            return orig_gi(obj, key, node)
+
+        it.getitem = gi
         env = {P[0]: Obj(None, {}, "self"), P[1]: Path(("ci",)), P[2]: Path(("r1",))}
         for extra in P[3:]:
             env[extra] = Path((extra,))
@@ -256,7 +290,7 @@ def fill(index, rep, fn):
                     want_food = want_food + it.to_rat(it.getattr(it.getitem(Path(("r1", a_)), Rat.atom("M"), loop), "kcals", loop))
             except Unsupported:
                 want_food = None
-            ok_o = got.get(k) == pkey and fk is not None and want_food is not None and fk == want_food
+            ok_o = got.get(k) == pkey and fk is not None and want_food is not None and _entry_first(fk) == _entry_first(want_food)
             rep.check(ok_o, rule_o, f"priority[{k + 1}]:{pkey}",
                       f"position {k + 1} of the greedy fill is stored under {got.get(k)!r} and consumes {fk}; the documented order puts {pkey} = "
                       f"{' + '.join(pattrs)} (kcals of that month) there", loc=loc(PARAMS, loop))
@@ -362,6 +396,28 @@ def retime(index, rep):
               "assert:result-non-negative", "the assertion that the re-timed meat is non-negative is gone", loc=loc(PARAMS, fn))
     # the None path is the 'less meat with feed' case: only when sum(round1) > sum(round2)
     rep.check(len(nulls) >= 1, rule, "skip-path-exists", "no path skips round 2 when feeding yields less meat", loc=loc(PARAMS, fn))
+    # the re-timed series is what round 2 is handed: it is stored into the monthly constants that compute_parameters_second_round returns
+    # (into the object held there, not into a copy of it)
+    c2r = index.func(PARAMS, "Parameters.compute_parameters_second_round")
+    inl2 = Inliner(c2r)
+    rets2 = [r for r in c2r.body if isinstance(r, ast.Return) and isinstance(r.value, ast.Tuple) and len(r.value.elts) >= 2
+             and not all(isinstance(e_, ast.Constant) for e_ in r.value.elts)]
+    tcn = norm_src(rets2[-1].value.elts[1]) if rets2 else None
+    hits = []
+    for t_, v_ in inl2.stores:
+        if inl2.src(v_).startswith("self.get_second_round_kcals_with_redistributed_meat("):
+            base = t_.value if isinstance(t_, ast.Attribute) else t_
+            hits.append((norm_src(t_), inl2.src(base)))
+    okh = tcn is not None and any(b_ == f"{tcn}['each_month_meat_slaughtered']" for _, b_ in hits)
+    if not okh and tcn is not None:
+        # ... or into a copy that is afterwards put there
+        for tgt_txt, b_ in hits:
+            holder = tgt_txt.rsplit(".", 1)[0]
+            okh = okh or any(norm_src(t2) == f"{tcn}['each_month_meat_slaughtered']" and norm_src(v2) == holder for t2, v2 in inl2.stores)
+    rep.check(okh, rule, "retimed series stored into round 2's monthly constants",
+              "the re-timed meat series is not what compute_parameters_second_round hands to round 2 (it is computed into "
+              f"{[h[0] for h in hits] or 'nothing'}, which is not the returned monthly constants' each_month_meat_slaughtered): the month-by-month floor at "
+              "the no-feed level is lost", loc=loc(PARAMS, c2r))
     # fill_negatives_with_positives: paired updates, fresh array, donor guard
     f = index.func(PARAMS, "Parameters.fill_negatives_with_positives")
     params = [a.arg for a in f.args.args if a.arg not in ("self", "cls")]
@@ -580,7 +636,61 @@ def bump(index, rep):
                       detail=str(inc)[:200])
     if n == 0:
         raise AnalysisError("increase_biofuels_then_feed: no completing path")
-    rep.require_min(rule, 2)
+    # entry by entry (the routine is elementwise): what each series may be raised by is at most its own head-room under its demand, and
+    # what is granted in total is at most what was asked for in total - on every path, from the path's own conditions
+    import ast as _ast
+    from .symx import leaf_implies, _Return
+    body = [s_ for s_ in fn.body if not (isinstance(s_, _ast.Expr) and isinstance(s_.value, _ast.Constant))]
+    A = {nm: Rat.atom((nm,)) for nm in names}
+
+    def run_el(it):
+        it.classes = {"Parameters": cls}
+
+        def hk(interp, d, a, kw, node):
+            if d in ("np.minimum", "np.maximum") and len(a) == 2 and all(isinstance(x, (Rat, Path)) for x in a):
+                x, y = interp.to_rat(a[0]), interp.to_rat(a[1])
+                le = interp.truth(interp.compare(_ast.LtE(), x, y, node), node)
+                return (x if le else y) if d == "np.minimum" else (y if le else x)
+            if d == "np.where" and len(a) == 3:
+                return a[1] if interp.truth(a[0], node) else a[2]
+            if d in ("np.zeros", "np.zeros_like"):
+                return Rat.const(0)
+            if d == "len":
+                return Rat.atom(("len",))
+            return NotImplemented
+
+        it.call_hook = hk
+        env = {fn.args.args[0].arg: Obj(cls, {}, "self")}
+        env.update(A)
+        try:
+            it.exec_block(body, env)
+        except _Return:
+            pass
+        return env
+
+    try:
+        el = [x for x in explore(run_el, month_classes=False) if not isinstance(x[2], Abort)]
+    except Unsupported as e:
+        raise AnalysisError(f"increase_biofuels_then_feed (entry by entry) outside the analysed fragment: {e}")
+    pnames = {"biofuel": [p_ for p_ in names if "biofuel" in p_ and p_ != "biofuel"], "feed": [p_ for p_ in names if "feed" in p_ and p_ != "feed"]}
+    if any(len(v_) != 1 for v_ in pnames.values()):
+        raise AnalysisError(f"increase_biofuels_then_feed: the demand parameters of biofuel and feed were not identified ({pnames})")
+    given = [(A["biofuel"], ">="), (A["feed"], ">="), (A[names[2]], ">="), (A[pnames["biofuel"][0]] - A["biofuel"], ">="), (A[pnames["feed"][0]] - A["feed"], ">=")]
+    bad = None
+    seen_pot = 0
+    for _, dec, env, it in el:
+        for use in ("biofuel", "feed"):
+            pots = [k_ for k_, v_ in env.items() if "potential" in k_ and use in k_ and "total" not in k_ and isinstance(v_, (Rat, Path))]
+            for k_ in pots:
+                seen_pot += 1
+                room = A[pnames[use][0]] - A[use]
+                if not leaf_implies(it, dec, it.to_rat(env[k_]) - room, "<=", extra=given):
+                    bad = bad or f"{k_} = {it.to_rat(env[k_])} can exceed the head-room {room} of {use} under its demand"
+    if seen_pot < 2:
+        raise AnalysisError("increase_biofuels_then_feed: the potential increases of biofuel and feed were not found among its locals")
+    rep.check(bad is None, rule, "potential increase <= head-room under the demand, for biofuel and for feed",
+              f"a series can be raised above its demand: {bad}", loc=loc(PARAMS, fn))
+    rep.require_min(rule, 3)
 
 
 def describe(rep):
